@@ -233,7 +233,7 @@ def judge_graph(g, key, sub, nontriv, r):
             r.bad('quickbb-not-optimal', 'factorize.quickbb', 'any', 'g=%r reported=%r order=%r order-width=%r tw=%r' % (g, qb, ord_qb, w, tw), sub, key); okall = False
     for m in METHODS:
         try:
-            t = F.tree_decomposition(copyg(g), method=m)
+            t = F.tree_decomposition(copyg(g), method=(m + '.')[:-1])      # an equal string that is not the interned literal
         except Exception as e:
             r.exc(e, m, sub, key)
             okall = False
